@@ -32,6 +32,10 @@ def make_cases(tier, rng):
         cases[-1]["hold"] = {"gate": gate, "side": "", "ms": rng.choice([150, 300, 400])}
     for tls, launch in ([("auto", "cmd"), ("", "runner")] if tier == "quick" else [("auto", "cmd"), ("", "runner"), ("auto", "runner")] * 3):
         add("process", [g.est(rng, keep=True) for _ in range(5)], "tls-or-runner", tls=tls, launch=launch)
+        if launch == "runner":
+            # ... and a runner whose address translation is not the identity (Unix sockets published across as TCP forwards)
+            add("process", [g.est(rng, keep=True) for _ in range(5)], "translating-runner", tls=tls, launch=launch)
+            cases[-1]["translate"] = "tcpforward"
     # two ids on one dialling broker whose waits overlap: one dial sits out most of its window (its accept comes late)
     # while another id, accepted early, is dialled meanwhile -- dials of different ids must not wait for each other
     for pair in (["inproc", "process"] if tier == "quick" else ["inproc", "process"] * 3):
